@@ -914,6 +914,81 @@ func runCrossStreamAck() (*streamResult, error) {
 	return res, nil
 }
 
+// runStreamEndAfterExtension: a stream holds a message whose lease the client then extends
+// OUTSIDE the stream (unary ModifyAckDeadline, as the NodeJS client does); the original
+// deadline passes; the stream ends. Ending a stream settles nothing: the message must stay
+// leased until the extended deadline (C04) -- the stream's own, stale view of the lease is
+// not a reason to hand it out again.
+func runStreamEndAfterExtension() (*streamResult, error) {
+	ctx := context.Background()
+	e, err := NewEnv(true)
+	if err != nil {
+		return nil, err
+	}
+	defer e.Close()
+	res := &streamResult{Scenario: "stream-end-after-extension", MaxM: 10, MaxB: 100000}
+	topic, subName := "projects/p/topics/y", "projects/p/subscriptions/y"
+	pre, _ := e.dumpR(ctx)
+	e.Exec(ctx, &Op{Kind: "CreateTopic", Name: topic}, pre)
+	mn := 400 * time.Millisecond
+	e.Exec(ctx, &Op{Kind: "CreateSub", Sub: &SubReq{Name: subName, Topic: topic, Retry: &[2]*time.Duration{&mn, nil}}}, pre)
+	d, _ := e.dumpR(ctx)
+	if o, err := e.Exec(ctx, &Op{Kind: "Publish", Name: topic, Msgs: []PubMsg{{Data: sizedPayload(10)}}}, d); err != nil || o.Resp.Kind != "ids" {
+		return nil, fmt.Errorf("publish: %v", err)
+	}
+	d0, _ := e.dumpR(ctx)
+	sub := d0.subByName(subName)
+	cl := &streamClient{out: map[uuid.UUID]int{}, maxM: 10, maxB: 100000}
+	conn := &scriptConn{in: make(chan *actions.MessageStreamRequest), closed: make(chan struct{}), cl: cl}
+	sctx, cancel := context.WithCancel(ctx)
+	ms := &actions.MessageStreamer{Client: e.Client, SubscriptionID: &sub.ID, SubscriptionName: subName, AutomaticNack: true}
+	done := make(chan error, 1)
+	go func() { done <- ms.Go(sctx, conn) }()
+	link := &directLink{conn, cancel, done}
+	if err := link.flow(10, 100000); err != nil {
+		return nil, err
+	}
+	deadline := time.Now().Add(3 * time.Second)
+	for cl.nsends() < 1 && time.Now().Before(deadline) {
+		time.Sleep(5 * time.Millisecond)
+	}
+	held, _ := cl.outstanding()
+	if len(held) != 1 {
+		link.close()
+		return nil, fmt.Errorf("stream-end-after-extension: nothing was delivered on the stream")
+	}
+	// extend the lease to 60 s outside the stream, then let the original deadline (440 ms) pass
+	dd, _ := e.dumpR(ctx)
+	if o, err := e.Exec(ctx, &Op{Kind: "ModAck", Name: subName, AckIDs: []string{held[0].String()}, Seconds: 60}, dd); err != nil || o.Resp.Kind == "err" {
+		link.close()
+		return nil, fmt.Errorf("ModifyAckDeadline outside the stream: %v %v", err, o)
+	}
+	cl.note("deadline of %s extended to 60 s by a unary ModifyAckDeadline", held[0])
+	time.Sleep(700 * time.Millisecond)
+	before, _ := e.dumpR(ctx)
+	link.close()
+	select {
+	case <-done:
+	case <-time.After(3 * time.Second):
+	}
+	time.Sleep(150 * time.Millisecond)
+	after, _ := e.dumpR(ctx)
+	xb, xa := before.del(held[0]), after.del(held[0])
+	switch {
+	case xb == nil || xa == nil:
+		res.Violations = append(res.Violations, fmt.Sprintf("lease-lost-at-stream-end: the delivery %s disappeared", held[0]))
+	case xb.AttemptAt < e.VNow()+int64(30*time.Second):
+		// (the extension itself did not take: not what this scenario is about)
+		cl.note("extension not in effect before the stream ended (attempt_at %v from now): scenario void", time.Duration(xb.AttemptAt-e.VNow()))
+	case xa.AttemptAt != xb.AttemptAt || xa.Attempts != xb.Attempts || (xa.Completed == nil) != (xb.Completed == nil):
+		res.Violations = append(res.Violations, fmt.Sprintf("lease-lost-at-stream-end: the client extended the deadline of %s to 60 s outside the stream; when the stream ended the delivery's next attempt moved from %v to %v from now (attempts %d -> %d): ending a stream settles nothing",
+			held[0], time.Duration(xb.AttemptAt-e.VNow()).Round(time.Millisecond), time.Duration(xa.AttemptAt-e.VNow()).Round(time.Millisecond), xb.Attempts, xa.Attempts))
+	}
+	res.Events = cl.events
+	res.Sends = cl.nsends()
+	return res, nil
+}
+
 // runHOL: the head-of-line situation, deterministically: limits 2 messages / 100 bytes, a
 // 60-byte message held by the client, then a 60-byte and a 10-byte message in the backlog.
 // Reports whether the 10-byte message is sent and how many transactions per second the
@@ -1219,6 +1294,14 @@ func cmdStream(args []string) error {
 		results = append(results, xr)
 		tot["sends"] += xr.Sends
 		tot["violations"] += len(xr.Violations)
+	}
+	if er, err := runStreamEndAfterExtension(); err != nil {
+		return err
+	} else {
+		results = append(results, er)
+		tot["scenarios_forced"]++
+		tot["sends"] += er.Sends
+		tot["violations"] += len(er.Violations)
 	}
 	if ar, err := runAckDuringSend(); err != nil {
 		return err
